@@ -18,13 +18,82 @@ _handles = {}
 # object; NAMED: every member opens the file by name
 HOWS_SHARED = ["fileobj", "fileobj-pos", "realfile"]
 HOWS_NAMED = ["filename", "filename-pos", "subclass"]
+# further KINDS of file object (notes/SIZE_STRESS.md part 4), all shared: what they deliver is the same package
+#   unbuffered    open(path, 'rb', buffering=0)  (io.FileIO)
+#   shortread     io.BufferedReader over a seekable raw stream that returns 1..7 bytes per call
+#   gzipfile / bz2file / lzmafile   the package stored compressed on disk and read through gzip.GzipFile /
+#                 bz2.BZ2File / lzma.LZMAFile (seekable; fileno() names the COMPRESSED file)
+#   spooled-mem / spooled-disk      tempfile.SpooledTemporaryFile below / beyond its max_size
+HOWS_KINDS = ["unbuffered", "shortread", "gzipfile", "bz2file", "lzmafile", "spooled-mem", "spooled-disk"]
+HOWS_COMPRESSED = ["gzipfile", "bz2file", "lzmafile"]
+HOW_COUNT = {}
 
 
-def pick_how(rnd, p_named):
-    """a way of creating the object; the in-memory ones (no disk traffic) are drawn more often"""
+class ShortRaw(io.RawIOBase):
+    """a seekable raw stream over bytes that never returns more than a few bytes per read"""
+
+    def __init__(self, data, seed=0):
+        super().__init__()
+        self._data, self._pos, self._k = data, 0, seed
+
+    def readable(self):
+        return True
+
+    def seekable(self):
+        return True
+
+    def readinto(self, b):
+        self._k = (self._k * 5 + 3) % 7
+        n = min(len(b), self._k + 1, len(self._data) - self._pos)
+        b[:n] = self._data[self._pos:self._pos + n]
+        self._pos += n
+        return n
+
+    def seek(self, offset, whence=0):
+        self._pos = max(0, offset if whence == 0 else self._pos + offset if whence == 1 else len(self._data) + offset)
+        return self._pos
+
+    def tell(self):
+        return self._pos
+
+
+def pick_how(rnd, p_named, heavy=False):
+    """a way of creating the object; the in-memory ones (no disk traffic) are drawn more often.
+    heavy: a big package -- not through the compressed wrappers (every backward seek decompresses again)"""
     if rnd.random() < p_named:
         return rnd.choice(HOWS_NAMED)
+    if rnd.random() < 0.2:
+        return rnd.choice([h for h in HOWS_KINDS if not (heavy and (h in HOWS_COMPRESSED or h == "shortread"))])
     return rnd.choice(["fileobj", "fileobj", "fileobj", "fileobj-pos", "fileobj-pos", "realfile"])
+
+
+def _kind_object(blob, how, path):
+    """the file object of one of HOWS_KINDS; whatever must be closed later is registered in _handles"""
+    import bz2
+    import gzip
+    import lzma
+    import tempfile
+    if how == "shortread":
+        return io.BufferedReader(ShortRaw(blob, len(blob)), buffer_size=[16, 512, 8192][len(blob) % 3])
+    if how in ("spooled-mem", "spooled-disk"):
+        fh = tempfile.SpooledTemporaryFile(max_size=(len(blob) + 1) if how == "spooled-mem" else 64,
+                                           dir=os.path.dirname(path))
+        fh.write(blob)
+        fh.seek(0)
+        _handles[path] = fh
+        return fh
+    if how == "unbuffered":
+        with open(path, "wb") as f:
+            f.write(blob)
+        fh = _handles[path] = open(path, "rb", buffering=0)
+        return fh
+    comp, opener = {"gzipfile": (lambda b: gzip.compress(b, 1, mtime=0), gzip.GzipFile),
+                    "bz2file": (lambda b: bz2.compress(b, 1), bz2.BZ2File),
+                    "lzmafile": (lambda b: lzma.compress(b, preset=0), lzma.LZMAFile)}[how]
+    with open(path, "wb") as f:
+        f.write(comp(blob))
+    fh = _handles[path] = opener(path, "rb")
+    return fh
 
 
 def open_deb(blob, how, work, path=None):
@@ -32,16 +101,20 @@ def open_deb(blob, how, work, path=None):
     how: fileobj      DebFile(fileobj=BytesIO)          fileobj-pos  DebFile(None, 'r', BytesIO)
          realfile     DebFile(fileobj=open(path, 'rb')) filename     DebFile(filename=path)
          filename-pos DebFile(path, 'r')                subclass     class X(DebFile) ... X(filename=path, mode='r')
+         HOWS_KINDS   DebFile(fileobj=<that kind of file object>)
     with a path given the file at that path is REWRITTEN and opened again"""
     from debian.debfile import DebFile
+    HOW_COUNT[how] = HOW_COUNT.get(how, 0) + 1
     try:
-        if how in HOWS_NAMED or how == "realfile":
+        if how in HOWS_NAMED or how == "realfile" or how in HOWS_KINDS:
             if path is None:
                 _counter[0] += 1
                 path = os.path.join(work, "p%d-%d.deb" % (os.getpid(), _counter[0]))
             old = _handles.pop(path, None)
             if old is not None:
                 old.close()
+            if how in HOWS_KINDS:
+                return DebFile(fileobj=_kind_object(blob, how, path)), "ok", path
             with open(path, "wb") as f:
                 f.write(blob)
             if how == "realfile":
@@ -59,6 +132,12 @@ def open_deb(blob, how, work, path=None):
         return DebFile(fileobj=io.BytesIO(blob)), "ok", None
     except Exception as e:      # observation about the code under test
         return None, classify(e), path
+
+
+def take_how_count():
+    out = dict(HOW_COUNT)
+    HOW_COUNT.clear()
+    return out
 
 
 def finish(deb, with_exit):
